@@ -68,6 +68,15 @@ class CmdMixin(object):
         if h is None:
             return
         err = errors[0].get("error") if errors else None
+        if cls == VALID and err is not None and err not in ("crowded", "reclaimed"):
+            # a command the statement lists as neither malformed nor out of order must not be refused
+            # (typically: an earlier rejected command changed the connection's state)
+            own = {"close": "C08", "release": "C07", "claim": "C03", "open": "C01", "add": "C02", "allocate": "C04"}
+            self.ev["valid_cmd_not_refused"] += 1
+            self.flag({"C17"} | ({own[mtype]} if mtype in own else set()), "well-formed, in-order command refused", st,
+                      {"msg": _short(msg), "error": err})
+        elif cls == VALID:
+            self.ev["valid_cmd_not_refused"] += 1
         if len(errors) > 1:
             self.flag({"C17"}, "more than one error frame", st, {"msg": _short(msg)})
         ctx = {"cm": cm, "msg": msg, "rest": rest, "others": others, "err": err, "cls": cls,
